@@ -61,7 +61,7 @@ def tlc_op_of(h):
     if kind == "hold":
         k = arg.get("k", 1)
     elif kind == "split":
-        k = arg.get("n", 2)
+        k = 20 if "ranges" in arg else arg.get("n", 2)
     elif kind == "rw":
         kind = arg.get("what", "rw")
     return {"dir": h["dir"], "msg": h["msg"], "ord": h["ord"], "kind": kind, "k": k}
@@ -222,6 +222,7 @@ def run(tier):
         else:
             ck.drift.append({"rule": rj["rule"], "event": rj["event"], "id": rj["id"], "cfg": sc["cfg"], "ops": sc.get("tlc_ops")})
 
+    dc.finish_validation(ck)
     ck.cov["traces_validated_against_impl"] = len(outcomes) + accepted
     ck.cov["evaluations"] = len(outcomes)
     ck.cov["distinct_nontrivial"] = len(nontrivial)
